@@ -159,6 +159,15 @@ def wrap_negative(value, bits):
     return bit_value
 
 
+def wrap_signed(value, bits):
+    """Two's complement bit pattern of a signed value, which must fit"""
+    if not inrange(value, bits):
+        raise ValueError(
+            f"Cannot encode {value} as signed value of {bits} bits"
+        )
+    return value & ((1 << bits) - 1)
+
+
 def inrange(value, bits):
     """Test if a signed value can be fit into the given number of bits"""
     upper_limit = 1 << (bits - 1)
